@@ -475,7 +475,7 @@ class ActionPrebuilder(xtuml.tools.Walker):
         prev = None
         for child in node.children:
             act_smt = self.accept(child)
-            xtuml.relate(prev, act_smt, 661, 'succeeds')
+            xtuml.relate(act_smt, prev, 661, 'succeeds')
             prev = act_smt
         
     def accept_ReturnNode(self, node):
